@@ -310,7 +310,9 @@ func (r *intraProxyStreamReceiver) recvReplicationMessages() error {
 			msg := RoutedMessage{SourceShard: r.sourceShardID, Resp: resp}
 			sent := false
 			logged := false
-			for !sent {
+			// Keep looking at the latch while waiting for the target shard's channel: without it the worker would
+			// outlive its stream for as long as no local stream for that shard registers.
+			for !sent && !shutdown.IsShutdown() {
 				if ch, ok := r.shardManager.GetRemoteSendChan(r.targetShardID); ok {
 					func() {
 						defer func() {
